@@ -11,11 +11,17 @@ use crate::util::opaque_pointer::*;
 use crate::util::rust_util::zeroed_alloc::new_zeroed_vec;
 use crate::vm::*;
 use atomic::Ordering;
+#[cfg(not(mmtk_verif))]
 use spin::RwLock;
+#[cfg(mmtk_verif)]
+use crate::util::verif::sync::spin_shim::RwLock;
 use std::cell::UnsafeCell;
 use std::mem::MaybeUninit;
 use std::sync::atomic::AtomicUsize;
+#[cfg(not(mmtk_verif))]
 use std::sync::Mutex;
+#[cfg(mmtk_verif)]
+use crate::util::verif::sync::Mutex;
 
 const UNINITIALIZED_WATER_MARK: i32 = -1;
 const LOCAL_BUFFER_SIZE: usize = 128;
